@@ -349,6 +349,25 @@ func propC18(w *World, r *Report) {
 		r.Check(ok, "W4", "reader: the write channel is closed on this exit after the writer was started", w.InstrPos(ret), "")
 	}
 	r.Check(len(closed) >= 1, "G4", "reader has an exit after the goroutine start", "-", fmt.Sprint(len(closed)))
+	// the pool channel stays open: the writer hands a buffer back after every frame it writes, also the frames still
+	// queued when the connection ends; a send on a closed channel panics and the queued frames are never flushed
+	{
+		var poolClose ssa.Instruction
+		for _, b := range hc.Blocks {
+			for _, in := range b.Instrs {
+				if c, ok := in.(*ssa.Call); ok {
+					if bi, ok := c.Call.Value.(*ssa.Builtin); ok && bi.Name() == "close" && chanOf(c.Call.Args[0]) == spent {
+						poolClose = in
+					}
+				}
+			}
+		}
+		if poolClose != nil {
+			r.Fail("W4", "reader: the buffer pool channel is never closed (the writer still hands buffers back while it drains the queue)", w.InstrPos(poolClose), "the reader closes the channel the writer sends spent buffers on: with frames still queued the writer's next hand-back panics (send on closed channel) and the queued frames are never flushed", "")
+		} else {
+			r.Pass("W4", "reader: the buffer pool channel is never closed (the writer still hands buffers back while it drains the queue)", w.Pos(hc.Pos()), "")
+		}
+	}
 	// goroutine arguments: (write channel, ..., spent channel)
 	var inParam, outParam *ssa.Parameter
 	for i, a := range goStmts[0].Call.Args {
